@@ -221,10 +221,19 @@ impl<C: ConfigurationAccess> PciRoot<C> {
         bar_index: u8,
     ) -> Result<Option<BarInfo>, PciError> {
         // Disable address decoding while sizing the BAR.
-        let (_status, command_orig) = self.get_status_command(device_function);
-        let command_disable_decode = command_orig & !(Command::IO_SPACE | Command::MEMORY_SPACE);
+        // Use the raw register value, so that any bits which aren't defined in `Command` are written
+        // back unchanged.
+        let command_orig = self
+            .configuration_access
+            .read_word(device_function, STATUS_COMMAND_OFFSET) as u16;
+        let command_disable_decode =
+            command_orig & !(Command::IO_SPACE | Command::MEMORY_SPACE).bits();
         if command_disable_decode != command_orig {
-            self.set_command(device_function, command_disable_decode);
+            self.configuration_access.write_word(
+                device_function,
+                STATUS_COMMAND_OFFSET,
+                command_disable_decode.into(),
+            );
         }
 
         let bar_orig = self
@@ -236,7 +245,11 @@ impl<C: ConfigurationAccess> PciRoot<C> {
         // before writing anything to the BAR, so there is nothing to restore but the command.
         if bar_orig & 0b111 == 0b100 && bar_index >= 5 {
             if command_disable_decode != command_orig {
-                self.set_command(device_function, command_orig);
+                self.configuration_access.write_word(
+                    device_function,
+                    STATUS_COMMAND_OFFSET,
+                    command_orig.into(),
+                );
             }
             return Err(PciError::InvalidBarType);
         }
@@ -296,7 +309,11 @@ impl<C: ConfigurationAccess> PciRoot<C> {
         );
 
         if command_disable_decode != command_orig {
-            self.set_command(device_function, command_orig);
+            self.configuration_access.write_word(
+                device_function,
+                STATUS_COMMAND_OFFSET,
+                command_orig.into(),
+            );
         }
 
         if size_mask == 0 {
